@@ -222,3 +222,36 @@ Theorem C16_composite_kappa_s_mode :
          [VStr "ka"; num gin; num lm] [] rg cu (vec [J0]) cu
          [("engine", expected_engine rs re dre amp sg0 sc tE gm gin aRs lm); ("kappa_s_to_alpha_Rs", [num hn; num rs; num gin]); ("draw_lens", [VBool false])].
 Proof. exact composite_kappa_s_mode. Qed.
+
+(* ---- composite (stars + dark matter) configuration: scaling grids and their reference ---- *)
+Require Import C16.Composite.
+(* per-lens M/L mode: grid[m][i, k] (OM) / grid[m][i, j, k] (GOM) = J_m(anisotropy node, inner-slope node) / j0_m;
+   population-level mode (OM): grid[m][i, k, l] = J_m(a_i, g_k, logM/L_l) / j0_m - axes in the order (anisotropy..., gamma_in, log_m2l) *)
+Theorem C16_composite_grid_nodes : forall (Jp : nat -> val -> val -> val -> list (string * val) -> R) (Jl : nat -> val -> val -> list (string * val) -> R) re
+    a0 a1 g0 g1 g2 l0 l1 b0 b1 j00 j01 rg cu, j00 <> 0 -> j01 <> 0 ->
+  let c := fun m a g => num (Jl m (aOM re a) (num g) ne / (if Nat.eqb m 0 then j00 else j01)) in
+  yields (Gc2 Jp Jl) 200 (CFun src_KinConstraintsComposite_anisotropy_scaling_relative_m2l) (Some (ccon re "OM" false [vec [a0; a1]] (vec [g0; g1; g2]) VNone)) [vec [j00; j01]] [] rg cu
+    (VList [VArr [VList [c 0%nat a0 g0; c 0%nat a0 g1; c 0%nat a0 g2]; VList [c 0%nat a1 g0; c 0%nat a1 g1; c 0%nat a1 g2]];
+            VArr [VList [c 1%nat a0 g0; c 1%nat a0 g1; c 1%nat a0 g2]; VList [c 1%nat a1 g0; c 1%nat a1 g1; c 1%nat a1 g2]]]) cu []
+  /\ yields (Gc2 Jp Jl) 260 (CFun src_KinConstraintsComposite_anisotropy_scaling_relative) (Some (ccon re "OM" true [vec [a0; a1]] (vec [g0; g1]) (vec [l0; l1]))) [vec [j00; j01]] [] rg cu
+    (VList [VArr [VList [VList [cell Jp re 0 a0 g0 l0 j00; cell Jp re 0 a0 g0 l1 j00]; VList [cell Jp re 0 a0 g1 l0 j00; cell Jp re 0 a0 g1 l1 j00]];
+                  VList [VList [cell Jp re 0 a1 g0 l0 j00; cell Jp re 0 a1 g0 l1 j00]; VList [cell Jp re 0 a1 g1 l0 j00; cell Jp re 0 a1 g1 l1 j00]]];
+            VArr [VList [VList [cell Jp re 1 a0 g0 l0 j01; cell Jp re 1 a0 g0 l1 j01]; VList [cell Jp re 1 a0 g1 l0 j01; cell Jp re 1 a0 g1 l1 j01]];
+                  VList [VList [cell Jp re 1 a1 g0 l0 j01; cell Jp re 1 a1 g0 l1 j01]; VList [cell Jp re 1 a1 g1 l0 j01; cell Jp re 1 a1 g1 l1 j01]]]]) cu []
+  /\ yields (Gc2 Jp Jl) 260 (CFun src_KinConstraintsComposite_anisotropy_scaling_relative_m2l) (Some (ccon re "GOM" false [vec [a0; a1]; vec [b0; b1]] (vec [g0; g1]) VNone)) [vec [j00; j01]] [] rg cu
+    (VList [VArr [VList [VList [cellG Jl re 0 a0 b0 g0 j00; cellG Jl re 0 a0 b0 g1 j00]; VList [cellG Jl re 0 a0 b1 g0 j00; cellG Jl re 0 a0 b1 g1 j00]];
+                  VList [VList [cellG Jl re 0 a1 b0 g0 j00; cellG Jl re 0 a1 b0 g1 j00]; VList [cellG Jl re 0 a1 b1 g0 j00; cellG Jl re 0 a1 b1 g1 j00]]];
+            VArr [VList [VList [cellG Jl re 1 a0 b0 g0 j01; cellG Jl re 1 a0 b0 g1 j01]; VList [cellG Jl re 1 a0 b1 g0 j01; cellG Jl re 1 a0 b1 g1 j01]];
+                  VList [VList [cellG Jl re 1 a1 b0 g0 j01; cellG Jl re 1 a1 b0 g1 j01]; VList [cellG Jl re 1 a1 b1 g0 j01; cellG Jl re 1 a1 b1 g1 j01]]]]) cu [].
+Proof. intros Jp Jl re a0 a1 g0 g1 g2 l0 l1 b0 b1 j00 j01 rg cu H0 H1 c. split; [exact (comp_grid_m2l_om Jp Jl re a0 a1 g0 g1 g2 j00 j01 rg cu H0 H1) | split; [apply comp_grid_pop_om; assumption | apply comp_grid_m2l_gom; assumption]]. Qed.
+Print Assumptions C16_composite_grid_nodes.
+(* the reference: J at the anisotropy base values and the MEAN of the inner-slope axis (not its middle node); the grids of the emitted
+   configuration are exactly the node ratios with that reference *)
+Theorem C16_composite_reference_is_axis_mean : forall (Jp : nat -> val -> val -> val -> list (string * val) -> R) (Jl : nat -> val -> val -> list (string * val) -> R) re a0 a1 g0 g1 g2 rg cu,
+  Jl 0%nat (base_om re) (num ((g0 + (g1 + (g2 + 0))) / 3)) ne <> 0 -> Jl 1%nat (base_om re) (num ((g0 + (g1 + (g2 + 0))) / 3)) ne <> 0 ->
+  exists grids,
+  yields (Gc2 Jp Jl) 300 (CFun src_KinConstraintsComposite_anisotropy_scaling) (Some (ccon re "OM" false [vec [a0; a1]] (vec [g0; g1; g2]) VNone)) [] [] rg cu grids cu []
+  /\ yields (Gc2 Jp Jl) 200 (CFun src_KinConstraintsComposite_anisotropy_scaling_relative_m2l) (Some (ccon re "OM" false [vec [a0; a1]] (vec [g0; g1; g2]) VNone))
+       [vec [Jl 0%nat (base_om re) (num ((g0 + (g1 + (g2 + 0))) / 3)) ne; Jl 1%nat (base_om re) (num ((g0 + (g1 + (g2 + 0))) / 3)) ne]] [] rg cu grids cu [].
+Proof. exact comp_reference_m2l. Qed.
+Print Assumptions C16_composite_reference_is_axis_mean.
